@@ -8,10 +8,11 @@
    C19_drawn_copies_partial the local vertex list `local` is an arbitrary input, and that those local vertices
    lie on the body's surface and span its extent is checked on the implementation by the harness, not proved.
    get_unit_factor / _UNIT_PREFIX / unit_prefix are TRANSLATED from /repo on this run (Gen.GenUnits). *)
-From Coq Require Import ZArith QArith List Bool Sorted.
+From Coq Require Import ZArith QArith List Bool Sorted Reals.
 From MV Require Import Lib.ListZ Lib.Rigid Lib.OctZ Gen.GenUnits
   Model.DisplayModel Model.DisplayExec Model.DisplayUnits Model.DisplayTriangle Model.DisplayShapes
-  Proofs.DisplayProofs Proofs.DisplayUnitsProofs Proofs.DisplayTriangleProofs Proofs.DisplayShapesProofs.
+  Proofs.DisplayProofs Proofs.DisplayUnitsProofs Proofs.DisplayTriangleProofs Proofs.DisplayShapesProofs
+  Model.DisplayCircle Proofs.DisplayCircleProofs.
 Import ListNotations.
 Open Scope Z_scope.
 
@@ -153,6 +154,22 @@ Theorem C19_polyline_through_points : forall (O : RigidOps) (L : RigidLaws O) (S
              (effective_inds (zlen path) s).
 Proof. exact (fun O L SO SL => @polyline_through_points_lem O L SO SL). Qed.
 Print Assumptions C19_polyline_through_points.
+
+(* make_Circle (line trace, over the real numbers; tied only by a float comparison with the figure): every drawn
+   point is on the loop x^2 + y^2 = (d/2)^2, z = 0; the line starts at angle 0, ends at 2 pi with first point =
+   last point (closed, once around), in equal steps of 2 pi / (base - 1) *)
+Theorem C19_circle_on_loop : forall (base : nat) (d : R) (k : nat),
+  let '(x, y, z) := circle_point base d k in (x * x + y * y = (d / 2) * (d / 2) /\ z = 0)%R.
+Proof. exact circle_on_loop_lem. Qed.
+Print Assumptions C19_circle_on_loop.
+
+Theorem C19_circle_closed_once_around : forall (base : nat) (d : R), (2 <= base)%nat ->
+  (linspace_2pi base 0 = 0 /\ linspace_2pi base (base - 1) = 2 * PI)%R /\
+  circle_point base d (base - 1) = circle_point base d 0 /\
+  (forall k, linspace_2pi base (S k) - linspace_2pi base k = 2 * PI / INR (base - 1))%R.
+Proof. exact (fun base d Hb => conj (conj (proj1 (circle_closed_lem base d Hb)) (proj1 (proj2 (circle_closed_lem base d Hb))))
+                                   (conj (proj2 (proj2 (circle_closed_lem base d Hb))) (circle_step_lem base))). Qed.
+Print Assumptions C19_circle_closed_once_around.
 
 (* make_Triangle as of /repo 2fa0af8 (integer facets, coordinates x1000; exact on the representable facets, see
    Model/DisplayTriangle.v).  A facet not magnetised along its normal is drawn as exactly its three vertices *)
